@@ -37,9 +37,14 @@ class Captured:
         return self.err.getvalue()
 
 
+RECORD = None       # a list: every Captured is appended (C05 scans everything the commands print)
+
+
 @contextlib.contextmanager
 def capture():
     cap = Captured()
+    if RECORD is not None:
+        RECORD.append(cap)
     with contextlib.redirect_stdout(cap.out), contextlib.redirect_stderr(cap.err):
         yield cap
 
